@@ -68,7 +68,10 @@ def run_mutant(args):
     ck = hashlib.sha256(json.dumps([os.path.basename(base_fdir), engine_hash(), prop, m], sort_keys=True).encode()).hexdigest()[:24]
     cp = os.path.join(cache_dir, ck + ".json")
     if os.path.exists(cp):
-        return json.load(open(cp))
+        try:
+            return json.load(open(cp))
+        except ValueError:
+            pass                      # a concurrent writer: recompute
     edits = m.get("edits") or [[m["file"], m["old"], m["new"]] + ([m["nth"], m["count"]] if "nth" in m else [])]
     res = {"id": m["id"], "status": None, "reported": []}
     try:
@@ -95,7 +98,9 @@ def run_mutant(args):
             res["status"] = "reported" if hit else "MISSED"
     finally:
         build.cleanup(sc)
-    json.dump(res, open(cp, "w"))
+    tmp = cp + ".tmp%d" % os.getpid()
+    json.dump(res, open(tmp, "w"))
+    os.replace(tmp, cp)
     return res
 
 
